@@ -208,8 +208,20 @@ def build_once(pname, ch, opts, stale=None, perms=None):
         fordrun.FILE_ORDER = None
 
 
+def default_trace(args):
+    """choice points (label, arity) of the default schedule of one job: used to shard the exploration"""
+    pname, bound, optname, opts, stale = args[:5]
+    from mc.explore import Chooser
+
+    ch = Chooser()
+    r, perm, events = build_once(pname, ch, opts, stale, list(itertools.permutations(sorted(PROJECTS[pname]))))
+    r.cleanup()
+    return [(l, n) for (l, n, _) in ch.trace]
+
+
 def explore_project(args):
-    pname, bound, optname, opts, stale = args
+    pname, bound, optname, opts, stale, *more = args
+    roots = more[0] if more else None  # shard: explore only the executions whose FIRST deviation is one of these prefixes
     st = Stats()
     base = [None]
     names = sorted(PROJECTS[pname])
@@ -237,7 +249,18 @@ def explore_project(args):
         finally:
             r.cleanup()
 
-    for ch, (status, snap, perm, events) in explore(run, bound=bound):
+    def executions():
+        if roots is None:
+            yield from explore(run, bound=bound)
+            return
+        from mc.explore import Chooser
+
+        ch0 = Chooser()
+        base[0] = run(ch0)[1]  # the default schedule is the reference of every shard (judged in the shard without roots)
+        for root in roots:
+            yield from explore(run, bound=bound, root=root)
+
+    for ch, (status, snap, perm, events) in executions():
         st.evaluations += 1
         st.transitions += len(ch.trace)
         devs = [(l, c) for (l, n, c) in ch.trace if c]
@@ -382,8 +405,20 @@ def main(tier, replay_path=None):
             jobs.append((pname, bound if optname == "graph" else 1, optname, OPTS[optname], None))
         jobs.append((pname, 0, "graph", OPTS["graph"], "other"))
         jobs.append((pname, 0, "graph", OPTS["graph"], "same"))
+    # a job with bound >= 2 is split by its first deviation (position, alternative) so that all cores share it
+    sharded = []
+    for job in jobs:
+        if job[1] < 2:
+            sharded.append(job)
+            continue
+        tr = default_trace(job)
+        firsts = [[0] * i + [a] for i, (_, n) in enumerate(tr) for a in range(1, n)]
+        sharded.append(job[:1] + (0,) + job[2:])  # the default schedule itself
+        per = max(1, len(firsts) // (core.WORKERS * 6) + 1)
+        for i in range(0, len(firsts), per):
+            sharded.append(job + (firsts[i:i + per],))
     total = Stats()
-    for st in core.pmap(explore_project, jobs):
+    for st in core.pmap(explore_project, sharded):
         total.merge(st)
     # stale output directories must not matter either: compare the three stale states at the default schedule
     st = Stats()
